@@ -91,8 +91,13 @@ class Potential_Form_Registry(object):
 
     builder = Table_Form_Builder()
 
+    # Forms that only exist in the potentialforms module (e.g. as.buck4) are registered last,
+    # their labels must be treated as taken here too
+    from .. import potentialforms
+    reserved = set([self._make_standard_name(name) for name, _pf in inspect.getmembers(potentialforms, _iscallable)])
+
     for d in definitions:
-      if d.name in self._potential_forms:
+      if d.name in self._potential_forms or d.name in reserved:
         raise Potential_Form_Registry_Exception("[Table-Form:{0}] has the same label as an existing potential form: '{0}'".format(d.name))
 
       pf = builder.create_potential_form(d)
